@@ -6,3 +6,6 @@
 (assert (not (is_fatal 0)))
 ; the context a cancel function belongs to (context.WithCancel)
 (declare-fun ctx_of (Int) Int)
+; byte-wise equality of two slices (bytes.Equal): an equivalence on contents
+(declare-fun bytes_equal ((Array Int Int) Int Int (Array Int Int) Int Int) Bool)
+(assert (forall ((a (Array Int Int)) (o Int) (n Int)) (! (bytes_equal a o n a o n) :pattern ((bytes_equal a o n a o n)))))
